@@ -620,6 +620,52 @@ def r12_tent(run, fx, floors=True):
         run.floor(rule, "constructions of the implied region of a tuple without intermediate coordinates (sign table or a scalar function of instance and peak)", implied, 1)
 
 
+# ---- R12-PDO: the fonts' Private DICTs and local subroutines stay as they are while charstrings are instanced --------------------------
+def r12_pdo(run, fx):
+    rule = "R12-PDO"
+    run.rule(rule, "CFF2 instancing: a charstring without its own vsindex operator blends with the vsindex of its font's Private DICT, and calls the "
+                   "font's local subroutines; instancing a Private DICT removes its vsindex and the local subroutines are dropped afterwards. In "
+                   "CFF2::instance_char_strings nothing that writes a font's private_dict or local_subr_index may reach (in the control flow graph) "
+                   "the interpretation of a charstring (CharStringVisitorContext::visit): those writes come after the glyph loop")
+    b = fx.body("cff::cff2::CFF2::<'a>::instance_char_strings")
+    if b is None:
+        return run.anchor_missing(rule, "CFF2::instance_char_strings")
+    visits = [bi for bi, t in b.calls() if callee_is(t, "CharStringVisitorContext::<'a, 'data>::visit", "CharStringVisitorContext::visit") or str(t["callee"].get("path") or "").endswith("CharStringVisitorContext::<'a, 'data>::visit")]
+    if not visits:
+        visits = [bi for bi, t in b.calls() if re.search(r"CharStringVisitorContext(::<[^>]*>)?::visit$", str(t["callee"].get("path") or ""))]
+    writes = []
+    fields = ("private_dict", "local_subr_index")
+    for bi, blk in enumerate(b.blocks):
+        if not b.reachable(bi):
+            continue
+        for st in blk["s"]:
+            if st["k"] != "assign":
+                continue
+            fs = place_fields(st["p"]) if st["p"]["p"] else []
+            if fs and fs[-1] in fields:
+                writes.append((bi, st, "store to ." + fs[-1]))
+            rv = st["rv"]
+            if rv["k"] == "ref" and rv.get("mut") and rv["p"]["p"]:
+                fr = place_fields(rv["p"])
+                if fr and fr[-1] in fields:
+                    writes.append((bi, st, "mutable borrow of ." + fr[-1]))
+    if not visits or not writes:
+        return run.anchor_missing(rule, "charstring visit / writes to private_dict in instance_char_strings (%d/%d)" % (len(visits), len(writes)))
+    bad = []
+    for bi, st, what in writes:
+        after = set()
+        for s_ in b.succs(bi):
+            after |= b.reach_from(s_)
+        if any(v in after for v in visits):
+            bad.append((bi, st, what))
+    if bad:
+        bi, st, what = bad[0]
+        run.fail(rule, "pdo:early-write", "in CFF2::instance_char_strings a %s can be followed by the interpretation of a charstring: a glyph that relies on the Private "
+                 "DICT's vsindex (or on a local subroutine) is instanced against the already stripped font" % what, b.loc(st))
+    else:
+        run.ok(rule, "instance_char_strings: %d write(s) to private_dict / local_subr_index, none reaches the %d charstring visit(s)" % (len(writes), len(visits)))
+
+
 def check(run, fx, tier, floors=True):
     import ignored
     ignored.run_for(run, fx, 'C12', floors)
@@ -636,6 +682,8 @@ def check(run, fx, tier, floors=True):
     r12_v(run, fx)
     r12_d(run, fx)
     r12_tent(run, fx, floors)
+    if floors or fx.body("cff::cff2::CFF2::<'a>::instance_char_strings") is not None:
+        r12_pdo(run, fx)
     r12_f(run, fx, floors)
     if floors or any("TupleVariationHeader" in b.path for b in fx.bodies):
         r12_xy(run, fx)
